@@ -934,6 +934,8 @@ def run_hammer_stream(prop, stream, tier, seed, workdir, scale=1):
                                    f"{orphans} queue slot(s) without entry (async), {dups} duplicate slot(s), {'over' if over else 'within'} its limit ({held_n} entries)")
                             verdicts.append({"kind": "MON", "id": "C18", "episode": 0, "step": 0, "raw": rp, "text": msg})
                             verdicts.append({"kind": "MON", "id": "C20", "episode": 0, "step": 0, "raw": rp, "text": msg.replace("MON C18", "MON C20")})
+                            if untracked or over:
+                                verdicts.append({"kind": "MON", "id": "C04", "episode": 0, "step": 0, "raw": rp, "text": msg.replace("MON C18", "MON C04")})
                 if f[5] != "-":
                     h, m_ = (int(x) for x in f[5].split(","))
                     if h + m_ == calls and m_ != execs:
